@@ -34,6 +34,7 @@ func init() {
 			{"C18-R9", "a connection field is not left closed", c18r9},
 			{"C18-R10", "a failed watch is forgotten so that it is retried", c18r10},
 			{"C18-R11", "a key pair read from files is served only after these very bytes were checked", c18r11},
+			{"C18-R12", "the rotation task announces the workload certificate", c18r12},
 		},
 	})
 }
@@ -622,5 +623,67 @@ func c18r11(c *Ctx) {
 		}
 	}
 	c.Check("file-backed secret items found", token.NoPos, n >= 1, "no SecretItem whose PrivateKey comes from a file read found in the agent's secret cache")
+	c.Floor(2)
+}
+
+// C18-R12: the rotation task announces the workload certificate. Whichever request triggered the CSR (`default` or, on a
+// cold cache / after a trust-bundle update, `ROOTCA`), the renewal task scheduled by registerSecret tells the subscribers
+// of the WORKLOAD certificate: the name handed to OnSecretUpdate in the task is the constant
+// security.WorkloadKeyCertResourceName - literally, or as the ResourceName of the registered item after registerSecret
+// stored that constant into it. Announcing the triggering request's name leaves the workload subscribers uninformed and
+// their certificate expires.
+func c18r12(c *Ctx) {
+	p := c.P
+	pkgCache := "security/pkg/nodeagent/cache"
+	fn := p.Func(pkgCache, "SecretManagerClient", "registerSecret")
+	upd := p.FuncObj(pkgCache, "SecretManagerClient", "OnSecretUpdate")
+	want, _ := constStringOf(p.Const("pkg/security", "WorkloadKeyCertResourceName"))
+	rn := p.Field("pkg/security", "SecretItem", "ResourceName")
+	// the parameter's cell, and the constant store into its ResourceName
+	nameFixed := false
+	var fixPos token.Pos
+	eachInstr(fn, func(ins ssa.Instruction) {
+		st, ok := ins.(*ssa.Store)
+		if !ok {
+			return
+		}
+		fa, ok := st.Addr.(*ssa.FieldAddr)
+		if !ok || fieldVar(fa.X.Type(), fa.Field) != rn {
+			return
+		}
+		if s, isC := constString(st.Val); isC && s == want {
+			nameFixed = true
+			fixPos = st.Pos()
+		}
+	})
+	n := 0
+	var scan func(f *ssa.Function)
+	scan = func(f *ssa.Function) {
+		eachInstr(f, func(ins ssa.Instruction) {
+			if mk, ok := ins.(*ssa.MakeClosure); ok {
+				if lit, ok := mk.Fn.(*ssa.Function); ok {
+					scan(lit)
+				}
+			}
+			call, ok := ins.(*ssa.Call)
+			if !ok || !isCallTo(call, upd) {
+				return
+			}
+			n++
+			arg := call.Call.Args[len(call.Call.Args)-1]
+			ok2 := false
+			if s, isC := constString(arg); isC && s == want {
+				ok2 = true
+			}
+			if f := fieldOfLoad(arg); f == rn && nameFixed {
+				ok2 = true
+			}
+			c.Check("the rotation task announces the workload certificate's name", call.Pos(), ok2,
+				"the renewal task scheduled by registerSecret hands OnSecretUpdate a name that is not fixed to `"+want+"`: when a ROOTCA request triggered the CSR (cold cache, or first request after a trust-bundle update) the task announces ROOTCA, the subscribers of the workload certificate are never told and keep it past its expiry, while the ROOTCA subscriber re-requests and repeats the cycle")
+		})
+	}
+	scan(fn)
+	_ = fixPos
+	c.Check("registerSecret schedules an announcement", fn.Pos(), n >= 1, "no OnSecretUpdate call in registerSecret or its task")
 	c.Floor(2)
 }
